@@ -309,6 +309,31 @@ def shape_nested(name):
     raise ValueError(name)
 
 
+def shape_nested_refs(outer, inner, kinds):
+    """outer((&inner(l0, l1), l2)) over references, any member kinds (all-R shapes are readable)"""
+    st, nm = picks(kinds)
+    cn = {"boxed": "BoxedLockCollection", "retry": "RetryingLockCollection"}
+    tyk = lambda k: "&" + k
+    build = ["let inner = match %s::try_new((l0, l1)) { Some(c) => c, None => { vcheck!(false, M_DUP_VERDICT); return; } };" % cn[inner],
+             "let coll = match %s::try_new((&inner, l2)) { Some(c) => c, None => { vcheck!(false, M_DUP_VERDICT); return; } };" % cn[outer]]
+    ctype = "%s::<(&%s<(%s, %s)>, %s)>" % (cn[outer], cn[inner], tyk(kinds[0]), tyk(kinds[1]), tyk(kinds[2]))
+    leaves = [(idexpr("l%d" % i, k), k, "l%d" % i) for i, k in enumerate(kinds)]
+    tag = {"boxed": "bx", "retry": "rt"}
+    sharable = all(k == "R" for k in kinds)
+    paths = ["*(g.0).0", "*(g.0).1", "*g.1"]
+    return Shape("n_%s_%s_%s" % (tag[outer], tag[inner], kinds.lower()), outer, ["let u = universe();"] + st, build, ctype, leaves, sharable,
+                 guard=paths, rguard=paths)
+
+
+def shape_pois_coll(inner):
+    """Poisonable wrapped around a collection that owns two locks"""
+    cn = {"boxed": "BoxedLockCollection", "retry": "RetryingLockCollection", "owned": "OwnedLockCollection"}[inner]
+    st = ["let o0 = new_m(6);", "let o1 = new_r(7);"]
+    return Shape("po_%s" % {"boxed": "bx", "retry": "rt", "owned": "ow"}[inner], "pois", st,
+                 ["let coll = Poisonable::new(%s::new((o0, o1)));" % cn], "Poisonable::<%s<(M, R)>>" % cn,
+                 [("6", "M", "&o0"), ("7", "R", "&o1")], False, guard=["*g.as_mut().0", "*g.as_mut().1"], rguard=None)
+
+
 def owned_first(shape):
     """twin of a nested shape in which the owned unit is declared (allocated) before the universe, so that
     its address is below the universe locks' instead of above"""
@@ -342,6 +367,14 @@ def all_shapes(tier):
         sh.append(shape_nested(n))
     for n in ("bx_ow", "rt_ow"):
         sh.append(owned_first(shape_nested(n)))
+    sh.append(shape_nested_refs("boxed", "retry", "RRR"))
+    sh.append(shape_nested_refs("retry", "boxed", "RRR"))
+    sh.append(shape_pois_coll("boxed"))
+    sh.append(shape_pois_coll("retry"))
+    if tier != "quick":
+        sh.append(shape_nested_refs("boxed", "boxed", "RRR"))
+        sh.append(shape_nested_refs("retry", "retry", "MRM"))
+        sh.append(shape_pois_coll("owned"))
     # containers: arrays, vectors, boxed slices (references into the universe, and owned)
     sh.append(shape_array("boxed", 3, "array"))
     sh.append(shape_array("retry", 3, "vec"))
